@@ -7,7 +7,7 @@ WATCHDOG_S = 2.0
 RULE = ("byte strings near the valid language: valid messages (packaged + generated configurations, 4 codecs, both bitmap "
         "forms) and their mutations — each length digit replaced by sign / space / underscore / NBSP / NUL / high byte / "
         "other digits, prefixes rewritten to point before, at and past the end, bitmap bits added and removed (incl. bit "
-        "128), truncation and extension — compared with an independent reference decoder: whatever is accepted must be "
+        "128), truncation and extension, hex bitmaps spelt with signs / blanks / underscores, configuration histories — compared with an independent reference decoder: whatever is accepted must be "
         "the exact tiling reading (numerals read leniently but non-negative); whatever the strict reference accepts must be "
         "accepted with the same dictionary. Non-trivial = mutated; distinct = distinct input bytes")
 TRUSTED = c01.TRUSTED + ["harness/isoutil.py ref_decode: independent strict reference decoder"]
@@ -18,10 +18,14 @@ cfg_of, cfg_id = c01.cfg_of, c01.cfg_id
 
 def impl_eval(case):
     from cardutil import iso8583
-    cfg = cfg_of(case)
     codec, hexbm = case['codec'], bool(case['hex'])
     data = bytes.fromhex(case['data'])
+
+    def warm_up(live, pre):
+        iso8583.loads(bytes.fromhex(pre['data']), encoding=codec, iso_config=live, hex_bitmap=hexbm)
+    cfg = c01.live_config(case, warm_up)
     obs, d, ex = iu.obs_loads(lambda: iso8583.loads(data, encoding=codec, iso_config=cfg, hex_bitmap=hexbm), cfg)
+    cfg = cfg_of(case)      # the references read the configuration the caller asked for
     why = None
     try:
         strict, _ = iu.ref_decode(data, cfg, codec, hexbm, strict_numerals=True)
@@ -126,4 +130,23 @@ def explore(run, tier):
                  b'1144' + bm([2]) + b' 3123', b'1144' + bm([2]) + b'+3123', b'1144' + bm([48]) + b'0_5' + b'00010' * 1,
                  b'1144' + bm([48]) + b'0100001003abc', b'1144' + bm([48]) + b'0090001003ab']:
         cases.append({'cfg': 'pkg', 'codec': 'latin_1', 'hex': 0, 'data': data.hex(), 'mut': 'corpus'})
+    # hexadecimal bitmap: spellings that int(.., 16) / bytes.fromhex tolerate (sign, blanks, underscores) are NOT hex
+    # bitmaps; the element data is laid out for the bitmap such a lenient reading would produce
+    for codec, data in c07.hex_spellings(rng, pkg):
+        cases.append({'cfg': 'pkg', 'codec': codec, 'hex': 1, 'data': data.hex(), 'mut': 'hexspelling'})
+    # configuration histories (see C01): decode under A, edit the same object into B, decode under B
+    for cfgA, cfgB, bit in c01.config_edits(rng, pkg, 30 if not thorough else 300):
+        codec = rng.choice(['latin_1', 'cp500'])
+        hexbm = rng.randrange(2)
+        try:
+            mA, _ = iu.gen_message(rng, cfgA, codec, bits=[bit])
+            dA = iu.ref_encode(mA, cfgA, codec, bool(hexbm))
+            mB, _ = iu.gen_message(rng, cfgB, codec, bits=[bit])
+            dB = iu.ref_encode(mB, cfgB, codec, bool(hexbm))
+        except (iu.RefError, KeyError):
+            continue
+        for how in ('inplace', 'deepcopy'):
+            for data, mut in ((dB, 'hist-valid'), (dA, 'hist-old-layout')):
+                cases.append({'cfg': cfgB, 'codec': codec, 'hex': hexbm, 'data': data.hex(), 'mut': mut,
+                              'before': {'cfg': cfgA, 'data': dA.hex(), 'how': how}})
     run.correspond(__name__, cases, use_model=run.use_model, chunk=200)
